@@ -337,6 +337,19 @@ def deleteSheet (s : St) (n : Name) : Except Err St :=
           | .error e => .error e   -- state discarded by the driver on error: see `Drv`
           | .ok i => .ok (setActiveSheet s2 (clampIdx i))
 
+/-- the loop `for { if part sheet<id>.xml exists in Pkg or Sheet { id++ } else break }` of `NewSheet`:
+at most `taken.length` ids can be occupied, so `fuel = taken.length + 1` iterations reach the exit -/
+def skipTaken (taken : List Nat) : Nat → Nat → Nat
+  | 0, id => id
+  | fuel + 1, id => if taken.contains id then skipTaken taken fuel (id + 1) else id
+
+/-- the sheet id (= part number) `NewSheet` allocates: max + 1, then past every existing part -/
+def newSheetID (s : St) : Nat :=
+  let first := maxOf (s.sheets.map (·.id)) + 1
+  if Facts.C16.newSheetSkipsExistingParts then
+    skipTaken (s.parts.map (·.1) ++ s.pkg) ((s.parts.map (·.1) ++ s.pkg).length + 1) first
+  else first
+
 /-- `NewSheet`; the result is the new state and the returned index (`none` = -1) -/
 def newSheet (s : St) (n : Name) : Except Err (St × Option Nat) :=
   match getSheetIndex s n with
@@ -346,7 +359,7 @@ def newSheet (s : St) (n : Name) : Except Err (St × Option Nat) :=
     match deleteSheet s n with       -- `_ = f.DeleteSheet(sheet)`
     | .error _ => .error .gap
     | .ok s0 =>
-      let sheetID := maxOf (s0.sheets.map (·.id)) + 1
+      let sheetID := newSheetID s0
       let rID := maxOf (s0.rels.map (·.rid)) + 1
       let s1 : St := { s0 with
         count := s0.count + 1
@@ -470,14 +483,24 @@ def setSheetVisible (s : St) (n : Name) (visible veryHidden : Bool) : St × Opti
 
 /-! ## SetDefinedName (scope resolution), cell content, save -/
 
-/-- `SetDefinedName{Name: name, RefersTo: const, Scope: scope}` (`scope = []`: workbook) -/
+/-- `getDefinedNameScope`: "" and "Workbook" are the workbook scope, otherwise the sheet must exist -/
+def getDefinedNameScope (s : St) (scope : Name) : Except Err (Option Nat) :=
+  if scope = [] ∨ scope = bytesOf Facts.C16.workbookScopeName then .ok none else
+  match getSheetIndex s scope with
+  | .error e => .error e
+  | .ok none => .error .notExist
+  | .ok (some i) => .ok (some i)
+
+/-- `SetDefinedName{Name: "dn_<name>", RefersTo: const, Scope: scope}`: the scope is resolved once to a
+local sheet id, a name already present in that scope (names compared case-insensitively; the
+transcript's names `dn_<k>` differ in more than case) is a duplicate -/
 def setDefinedName (s : St) (name : Nat) (scope : Name) : Except Err St :=
-  let loc := if scope = [] then none else sheetIndexD s scope
-  if s.defs.any (fun d =>
-      (match d.loc with
-        | some l => getSheetName s l
-        | none => []) == scope && d.name == name) then .error .dupDefName
-  else .ok { s with defs := s.defs ++ [⟨name, loc⟩] }
+  if !Facts.C16.definedNameScopeResolved then .error .gap else
+  match getDefinedNameScope s scope with
+  | .error e => .error e
+  | .ok loc =>
+    if s.defs.any (fun d => d.loc == loc && d.name == name) then .error .dupDefName
+    else .ok { s with defs := s.defs ++ [⟨name, loc⟩] }
 
 /-- `SetCellInt(sheet, "A1", v)` -/
 def setCell (s : St) (n : Name) (v : Nat) : Except Err St :=
@@ -572,8 +595,17 @@ def follow (old : Book) (sheets : List Entry) : Nat :=
     | none => 0
   | none => 0
 
-def selectOnly (sheets : List Entry) (i : Nat) : List Entry :=
-  (sheets.zipIdx).map fun (e, k) => { e with selected := k == i }
+/-- only the sheet at position `i` is selected (`k` = position of the head) -/
+def selFrom (i : Nat) : Nat → List Entry → List Entry
+  | _, [] => []
+  | k, e :: es => { e with selected := i == k } :: selFrom i (k + 1) es
+
+def selectOnly (sheets : List Entry) (i : Nat) : List Entry := selFrom i 0 sheets
+
+/-- every sheet but the one at position `a` is deselected -/
+def unselFrom (a : Nat) : Nat → List Entry → List Entry
+  | _, [] => []
+  | k, e :: es => (if a = k then e else { e with selected := false }) :: unselFrom a (k + 1) es
 
 def otherVisible (b : Book) (n : Name) : Bool :=
   b.sheets.any fun e => !eqFold e.name n && e.visible
@@ -643,7 +675,7 @@ def group (b : Book) (ns : List Name) : Option Book :=
     some { b with sheets := b.sheets.map fun e => if ns.any (fun n => eqFold n e.name) then { e with selected := true } else e }
 
 def ungroup (b : Book) : Book :=
-  { b with sheets := (b.sheets.zipIdx).map fun (e, k) => if k == b.active then e else { e with selected := false } }
+  { b with sheets := unselFrom b.active 0 b.sheets }
 
 def setCell (b : Book) (n : Name) (v : Nat) : Option Book :=
   if !validName n then none else
